@@ -103,6 +103,9 @@ func c11Program(id string, c c11Cell) *Program {
 	}
 	top := b.Carrier(0, "Top")
 	direct = append(direct, ItemRef(b.Func(0, "NewTop", top, false, false, tops...).ID))
+	// the position of the binding (and of everything else) in the argument list must not matter
+	rr := Rng(int64(len(id)*7+c.nI*3+c.nC), "c11order"+c.String(), 0)
+	rr.Shuffle(len(direct), func(i, j int) { direct[i], direct[j] = direct[j], direct[i] })
 	b.Inj("Init", top, false, false, params, direct...)
 	b.P.Note = "bind:" + c.String()
 	b.P.Feat = map[string]string{"cell": c.String()}
